@@ -43,6 +43,10 @@ var _ func() frt.Tuple2[GRes[int], GRes[int]] = i_dupu_int
 var _ func() frt.Tuple2[GRes[string], GRes[string]] = i_dupu_str
 var _ func(int, int, int, int) int = i_chain
 var _ func(int, string, string) frt.Tuple3[int, bool, int] = i_chain2
+var _ func(int, string) GPair[int, string] = i_mkgp[int, string]
+var _ func(int) GPair[int, string] = i_gp_mixed
+var _ func(GPair[int, string]) GPair[string, int] = i_gp_swap
+var _ func(int, string, bool) GPair[GPair[int, string], bool] = i_gp_nested[int, string, bool]
 
 func Harness_C02_generic_uses() {
 	n := verifInt("n")
